@@ -135,7 +135,7 @@ def finish(ctx, explanation, assumptions, write_evidence=True):
         ev = dict(
             property_id=pid, tier=ctx.tier, seed=int(os.environ.get('VERIF_SEED', '0') or 0), level='other',
             coverage=dict(
-                explanation=explanation,
+                explanation=explanation + ' Rules evaluated in this run (coverage.rules gives their instance counts): ' + '; '.join('%s: %s' % (r.id, r.text) for r in ctx.rules) + '.',
                 evaluations=sum(max(r.paths, r.rows, len(r.instances)) for r in ctx.rules),
                 distinct_nontrivial=len({(r.id, i['function'], i['site']) for r in ctx.rules for i in r.instances}),
                 rule='one case = one rule instance (a site in /repo carrying an obligation: a call, a write, a return path, a table row); '
